@@ -33,10 +33,22 @@ Proof.
   unfold quote_char. destruct (unreserved c); eexists; eexists; split; try reflexivity; auto.
 Qed.
 
+Lemma unquote_transform s : unquote (transform_id s) = s.
+Proof.
+  unfold transform_id. destruct (String.eqb_spec (quote s) ".") as [E|_].
+  - change "." with (quote ".") in E. apply quote_inj in E. now subst s.
+  - destruct (String.eqb_spec (quote s) "..") as [E|_]; [|apply unquote_quote].
+    change ".." with (quote "..") in E. apply quote_inj in E. now subst s.
+Qed.
+Lemma transform_inj a b : transform_id a = transform_id b -> a = b.
+Proof. intros H. apply (f_equal unquote) in H. now rewrite !unquote_transform in H. Qed.
+
 Lemma quote_legal_shape i : legal i = true ->
-  String.eqb (quote i) "" = false /\ String.eqb (quote i) "_all_docs" = false.
+  String.eqb (transform_id i) "" = false /\ String.eqb (transform_id i) "_all_docs" = false.
 Proof.
   destruct i as [|c r]; cbn [legal]; [discriminate|]. intros Hc. apply negb_true_iff in Hc.
+  unfold transform_id. destruct (String.eqb (quote (String c r)) "."); [split; reflexivity|].
+  destruct (String.eqb (quote (String c r)) ".."); [split; reflexivity|].
   cbn [quote]. destruct (quote_char_head c) as (a & t & E & Ha). rewrite E. cbn [append].
   split; [reflexivity|]. cbn [String.eqb].
   destruct Ha as [-> | ->]; [rewrite Hc; reflexivity|reflexivity].
@@ -49,13 +61,13 @@ Proof.
   unfold parse_source, generate_source, doc_url, base_url, couch_scheme, http_scheme.
   destruct (c_secure c).
   - rewrite (prefix_app "couchdbs://"). reflexivity.
-  - change (prefix "couchdbs://" ("couchdb://" ++ c_rest c ++ "/" ++ quote i)) with false.
+  - change (prefix "couchdbs://" ("couchdb://" ++ c_rest c ++ "/" ++ transform_id i)) with false.
     cbv iota. rewrite (prefix_app "couchdb://"). reflexivity.
 Qed.
 Lemma source_nonempty c i : String.eqb (generate_source c i) "" = false.
 Proof. unfold generate_source, couch_scheme. destruct (c_secure c); reflexivity. Qed.
 
-Lemma route_doc c i : legal i = true -> url_target c (doc_url c i) = TDoc (quote i).
+Lemma route_doc c i : legal i = true -> url_target c (doc_url c i) = TDoc (transform_id i).
 Proof.
   intros Hl. unfold url_target, doc_url. rewrite prefix_app, skip_app.
   destruct (quote_legal_shape i Hl) as [H1 H2]. cbn [append]. cbn [Ascii.eqb].
@@ -112,7 +124,7 @@ Lemma serve_read c sv i m rv b : legal i = true -> m = GET \/ m = HEAD ->
          | None => jerr 404
          end).
 Proof.
-  intros Hl Hm. unfold serve. cbn [rq_url rq_meth]. rewrite (route_doc c i Hl), unquote_quote.
+  intros Hl Hm. unfold serve. cbn [rq_url rq_meth]. rewrite (route_doc c i Hl), unquote_transform.
   destruct Hm as [-> | ->]; destruct (live sv i) as [[r v]|]; reflexivity.
 Qed.
 
@@ -130,7 +142,7 @@ Lemma serve_put c sv i given v : legal i = true ->
     end.
 Proof.
   intros Hl. unfold serve. cbn [rq_url rq_meth rq_body rq_rev].
-  rewrite (route_doc c i Hl), unquote_quote, (legal_not_reserved i Hl). reflexivity.
+  rewrite (route_doc c i Hl), unquote_transform, (legal_not_reserved i Hl). reflexivity.
 Qed.
 
 Lemma serve_delete c sv i given : legal i = true ->
@@ -142,7 +154,7 @@ Lemma serve_delete c sv i given : legal i = true ->
                      else (sv, jerr 409)
     end.
 Proof.
-  intros Hl. unfold serve. cbn [rq_url rq_meth rq_rev]. now rewrite (route_doc c i Hl), unquote_quote.
+  intros Hl. unfold serve. cbn [rq_url rq_meth rq_rev]. now rewrite (route_doc c i Hl), unquote_transform.
 Qed.
 
 Lemma live_aset_same sv i r v : live (aset i (mkDoc r (Some v)) sv) i = Some (r, v).
@@ -364,7 +376,7 @@ Proof.
       destruct (get_doc c (Some (0, ft)) 0 w i) as [w' [e'|y]]; cbn in He; [|discriminate].
       injection He as ->. intros _. cbn in *. split; [exact Hsv|exact Hd].
     + destruct (get_doc c (Some (S k, ft)) 0 w i) as [w' [e'|y]]; cbn; lia.
-  - (* modify *) cbn. lia.
+  - (* modify *) destruct (nth_error (heap (w_cl w)) x); cbn; lia.
   - (* commit *) unfold op_commit. destruct (nth_error (heap (w_cl w)) x) as [ce|]; [|cbn; lia].
     destruct (String.eqb (c_src ce) ""); [cbn; lia|].
     destruct (parse_source (c_src ce)) as [url|]; [|cbn; lia].
@@ -466,7 +478,7 @@ Record Inv (c : cfg) (w : world) : Prop := mkInv {
 
 Lemma doc_url_inj c i j : doc_url c i = doc_url c j -> i = j.
 Proof.
-  unfold doc_url. intros H. apply append_inv_head in H. cbn in H. injection H as H. now apply quote_inj.
+  unfold doc_url. intros H. apply append_inv_head in H. cbn in H. injection H as H. now apply transform_inj.
 Qed.
 
 Lemma aset_keys_nodup {B} k (v : B) l : NoDup (map fst l) -> NoDup (map fst (aset k v l)).
@@ -984,7 +996,8 @@ Proof.
     split; [exact HI'|]. intros ce' [= <-]. destruct (absmap w (c_id ce)); [|exact Hs].
     destruct Hs as [Ho Hw]. split; [exact Ho|]. now rewrite Hw.
   - destruct (get_ok c w i HI Hwf) as (HI' & Hsame & Hs). auto.
-  - split; [|split; [intros j; reflexivity|reflexivity]]. cbn [step world_of fst].
+  - cbn [step]. unfold cellw in Hwf. destruct (nth_error (heap (w_cl w)) x) as [ce0|]; [|congruence].
+    split; [|split; [intros j; reflexivity|reflexivity]]. cbn [world_of fst].
     constructor; cbn [w_sv w_cl revs cache]; try apply HI.
     + apply Inv_cells_upd; [apply (inv_cells c w HI)|]. intros ce Hce. cbn. split; [reflexivity|].
       now apply (inv_cells c w HI x ce).
